@@ -9,6 +9,7 @@ import (
 	"reflect"
 	"runtime"
 	"strings"
+	"time"
 
 	gojson "github.com/goccy/go-json"
 
@@ -200,7 +201,9 @@ func c08GCMaps(c *rt.Ctx, sub0 int) {
 	}
 }
 
-func c08Run(c *rt.Ctx, sub int, x any, t reflect.Type, feat string, interps []c08Interp, cyclic bool) {
+// c08Run returns false when a call on a cyclic value was abandoned after its deadline; the caller
+// must leave the batch (the worker is replaced once the batch is journalled).
+func c08Run(c *rt.Ctx, sub int, x any, t reflect.Type, feat string, interps []c08Interp, cyclic bool) bool {
 	input := map[string]any{"type": t.String()}
 	if !cyclic {
 		input["value"] = stdRender(x)
@@ -209,7 +212,45 @@ func c08Run(c *rt.Ctx, sub int, x any, t reflect.Type, feat string, interps []c0
 		ip := &interps[i]
 		var out []byte
 		var err error
-		pan, msg, frame := rt.Guard(func() { out, err = ip.f(x) })
+		var pan bool
+		var msg, frame string
+		if cyclic {
+			// cycle detection answers in milliseconds; unbounded recursion does not answer at all
+			// (and grows the heap), so the call gets a deadline on its own goroutine
+			type res struct {
+				out        []byte
+				err        error
+				pan        bool
+				msg, frame string
+			}
+			done := make(chan res, 1)
+			go func() {
+				var r res
+				r.pan, r.msg, r.frame = rt.Guard(func() { r.out, r.err = ip.f(x) })
+				done <- r
+			}()
+			returned := false
+			for _, wait := range []time.Duration{20 * time.Second, 40 * time.Second} {
+				select {
+				case r := <-done:
+					out, err, pan, msg, frame = r.out, r.err, r.pan, r.msg, r.frame
+					returned = true
+				case <-time.After(wait):
+				}
+				if returned {
+					break
+				}
+			}
+			if !returned {
+				c.Eval(1)
+				c.Violate(rt.Violation{Monitor: "cycle", Entry: ip.name, Kind: "hang", Ctx: featTag(feat),
+					Detail: "no answer within 60 s for a cyclic value (unbounded recursion) | type " + t.String(), Input: input, Sub: sub})
+				c.Respawn = true
+				return false
+			}
+		} else {
+			pan, msg, frame = rt.Guard(func() { out, err = ip.f(x) })
+		}
 		c.Eval(1)
 		st, reports := gojson.VerifSlotTake()
 		c.Obs("slot_accesses", int64(st.Access))
@@ -241,6 +282,7 @@ func c08Run(c *rt.Ctx, sub int, x any, t reflect.Type, feat string, interps []c0
 			c.Obs("cycles_reported_as_error", 1)
 		}
 	}
+	return true
 }
 
 // deep chains and cycles over the recursive zoo types
@@ -671,7 +713,9 @@ func init() {
 					if !c.Cur(i, fmt.Sprintf("shapes=core\ncycle %s length %d", cy.name, n)) {
 						continue
 					}
-					c08Run(c, i, x, reflect.TypeOf(x), "", interps, true)
+					if !c08Run(c, i, x, reflect.TypeOf(x), "", interps, true) {
+						return
+					}
 					c.NonTrivial("cycle", cy.name, fmt.Sprint(n))
 				}
 				c.Sample(map[string]any{"family": "cycles", "ring_length": n, "shapes": len(cycles)})
